@@ -12,7 +12,12 @@
  *                                                                      prod=2: additionally downtimes are scheduled through the
  *                                                                      API action `schedule-downtime` (ApiActions::ScheduleDowntime;
  *                                                                      those owned by a schedule still via AddDowntime) and removed
- *                                                                      by users through `remove-downtime` (ApiActions::RemoveDowntime)
+ *                                                                      by users through `remove-downtime` (ApiActions::RemoveDowntime);
+ *                                                                      prod=3: like 1, but downtimes not owned by a schedule are
+ *                                                                      scheduled through the external commands SCHEDULE_HOST_DOWNTIME /
+ *                                                                      SCHEDULE_SVC_DOWNTIME (trigger given by its legacy id) and removed
+ *                                                                      by users through DEL_HOST_DOWNTIME / DEL_SVC_DOWNTIME
+ *                                                                      (ExternalCommandProcessor::Execute)
  *   A <id> <fixed> <start> <end> <dur> <trigBy> <owner> <now>          add downtime d<id> (entry_time = now)
  *   R <state> <te> <now>                                               ProcessCheckResult (exec start = end = te)
  *   T <now> <fired>                                                    clock := now, Timer::VerifFireDue(now); <fired> (0|1: the
@@ -37,6 +42,7 @@
 #include "base/configuration.hpp"
 #include "icinga/checkcommand.hpp"
 #include "icinga/downtime.hpp"
+#include "icinga/externalcommandprocessor.hpp"
 #include "icinga/notification.hpp"
 #include "remote/apiaction.hpp"
 #include "remote/configobjectutility.hpp"
@@ -244,6 +250,33 @@ static void DoAdd(int id, int fixed, long long start, long long end, long long d
 				} else {
 					fprintf(stderr, "schedule-downtime: %s\n", JsonEncode(res).CStr());
 				}
+			} else if (g_Prod == 3 && !owner) {
+				Host::Ptr host;
+				Service::Ptr service;
+				tie(host, service) = GetHostService(g_Obj);
+				std::vector<String> args;
+				args.push_back(host->GetName());
+				if (service)
+					args.push_back(service->GetShortName());
+				args.push_back(String(std::to_string((long long)(g_Base + start))));
+				args.push_back(String(std::to_string((long long)(g_Base + end))));
+				args.push_back(fixed ? "1" : "0");
+				args.push_back(String(std::to_string(parent ? parent->GetLegacyId() : 0)));
+				args.push_back(String(std::to_string(dur)));
+				args.push_back("a");
+				args.push_back(Convert::ToString(id));
+				ExternalCommandProcessor::Execute(Utility::GetTime(), service ? "SCHEDULE_SVC_DOWNTIME" : "SCHEDULE_HOST_DOWNTIME", args);
+				for (const Downtime::Ptr& d : g_Obj->GetDowntimes()) {
+					if (d->GetComment() == Convert::ToString(id) && !g_IdOf.count(d->GetName())) {
+						name = d->GetName();
+						g_Names[id] = name;
+						g_IdOf[name] = id;
+						for (int ev : g_Pending[name])
+							g_Events[{ev, id}]++;
+						g_Pending.clear();
+						break;
+					}
+				}
 			} else if (g_Prod) {
 				Downtime::AddDowntime(g_Obj, "a", Convert::ToString(id), g_Base + start, g_Base + end, fixed != 0, parent,
 					(double)dur, owner ? "sd1" : "", "", "", name);
@@ -338,6 +371,13 @@ static void DoRemove(int id, int reason, long long now)
 			new Dictionary({ { "author", "u" } }));
 		int code = res->Get("code");
 		rc = code == 200 ? (Downtime::GetByName(name) ? 3 : 1) : (code == 400 ? 2 : 4);
+	} else if (g_Prod == 3 && reason != 2) {
+		Host::Ptr host;
+		Service::Ptr service;
+		tie(host, service) = GetHostService(g_Obj);
+		ExternalCommandProcessor::Execute(Utility::GetTime(), service ? "DEL_SVC_DOWNTIME" : "DEL_HOST_DOWNTIME",
+			{ String(std::to_string(Downtime::GetByName(name)->GetLegacyId())) });
+		rc = Downtime::GetByName(name) ? 2 : 1; /* the refusal is logged, not reported */
 	} else {
 		try {
 			Downtime::RemoveDowntime(name, false, reason == 2 ? DowntimeRemovedByConfigOwner : DowntimeRemovedByUser, "u");
@@ -499,7 +539,7 @@ static void SystematicChains(bool thorough)
 		if (mask == 0 && how == 1)
 			continue;
 		caseNo++;
-		int prod = caseNo % 5 == 0 ? 1 : (caseNo % 7 == 0 ? 2 : 0);
+		int prod = caseNo % 5 == 0 ? 1 : (caseNo % 7 == 0 ? 2 : (caseNo % 11 == 0 ? 3 : 0));
 		if (prod == 2 && how == 1)
 			prod = 1; /* (an expired window cannot be scheduled through the API action: end_time in the past is fine, keep it simple) */
 		BeginCase(caseNo % 2 == 0, prod, caseNo % 3 == 0 ? 3 : 1);
@@ -615,7 +655,7 @@ int main(int argc, char **argv)
 		Rng rng(seed);
 		int n = thorough ? 60000 : 6000;
 		for (int i = 0; i < n; i++)
-			GenCase(rng, thorough, i % 8 == 7 ? 1 : (i % 8 == 3 ? 2 : 0)); /* one case in eight through AddDowntime, one through the API actions */
+			GenCase(rng, thorough, i % 16 == 11 ? 3 : (i % 8 == 7 ? 1 : (i % 8 == 3 ? 2 : 0))); /* one case in eight through AddDowntime, one in sixteen through the API actions, one in sixteen through the external commands */
 	} else if (mode == "ops") {
 		if (argc < 3) return 2;
 		FILE *f = fopen(argv[2], "r");
